@@ -186,7 +186,7 @@ class GraphBuilder:
         """Declared input shape: some dims symbolic."""
         decl = []
         for d in shape:
-            if self.mode == "dag" and self.rng.chance(1, 3):
+            if (self.mode == "dag" or getattr(self, "symbolic_inputs", False)) and self.rng.chance(1, 3):
                 # Reuse a symbol of the same size or make a new one.
                 same = [s for s, n in self.symbols.items() if n == d]
                 if same and self.rng.bool():
